@@ -31,6 +31,18 @@ Theorem C17_executed_until_unmarked : forall lim ops s h,
 Proof. exact executed_until_unmarked. Qed.
 Print Assumptions C17_executed_until_unmarked.
 
+(* AT MOST ONCE, over histories and for every proposal-flag setting: once a block containing t has been
+   marked executed -- whatever happened before (ops1) and whatever happens afterwards (ops2: adds, other
+   blocks, reorgs of other blocks, expiry, packs) as long as no unmark names t's hash -- a transaction with
+   that hash is refused by add (pool unchanged) and is in no packed batch. *)
+Theorem C17_at_most_once : forall lim ops1 txs ev ops2 t,
+  In t txs -> (forall o, In o ops2 -> ~ unmarks o (thash t)) ->
+  let s := run lim empty (ops1 ++ OMark txs ev :: ops2) in
+  (forall t', thash t' = thash t -> add lim s t' = (s, AErrExist)) /\
+  (forall f st cap t', In t' (pack f st cap s) -> thash t' <> thash t).
+Proof. exact at_most_once. Qed.
+Print Assumptions C17_at_most_once.
+
 (* Reorg: every transaction of an unmarked block is pending again and no longer executed, provided the
    pending list has room for the block (guard: see C17_unmark_full_refuted). *)
 Theorem C17_unmark_pending : forall lim s txs ev t,
@@ -39,6 +51,18 @@ Theorem C17_unmark_pending : forall lim s txs ev t,
   In (thash t) (hashes (received s')) /\ ~ In (thash t) (exec_keys s').
 Proof. exact unmark_pending. Qed.
 Print Assumptions C17_unmark_pending.
+
+(* ... and it can be packed once more: the pending entry with that hash is in the next batch whenever it
+   is not ahead of the sender's state nonce (or is not nonce-checked) and the pending list fits the
+   per-block limit. *)
+Theorem C17_reorg_repackable : forall lim s txs ev t f st cap,
+  In t txs -> N.of_nat (length (received s) + length txs) <= lim ->
+  let s' := unmark lim s txs ev in
+  exists t', In t' (received s') /\ thash t' = thash t /\ ~ In (thash t) (exec_keys s') /\
+    (N.of_nat (length (received s')) <= cap -> trid t' <> 0 \/ tnonce t' <= st (tsrc t') ->
+     In t' (pack f st cap s')).
+Proof. exact reorg_repackable. Qed.
+Print Assumptions C17_reorg_repackable.
 
 (* Without the guard the statement is false: with a full pending list the unmarked transaction is
    dropped by simpleContainer.push and is afterwards neither pending nor executed. *)
@@ -175,3 +199,18 @@ Example C17_example :
   pack f (fun _ => 0) 200 s = [b0; a0; a1; g] /\ pack f (fun _ => 0) 2 s = [b0; a0] /\
   pack f (fun a => if a =? 1 then 1 else 0) 200 s = [b0; a0; a1; g].
 Proof. vm_compute. repeat split; reflexivity. Qed.
+
+(* Non-vacuity of the schedule theorems: on the locked steps the schedule that broke the unlocked code makes
+   the MarkExecuted wait (its first LMarkW is a blocked step), and ends executed-only; a mid-MarkExecuted
+   state is not mark_idle; an expiry history drops an entry at its fifth tick. *)
+Example C17_example_schedule :
+  let t := mkTx 5 1 0 0 in
+  let sched := [LCheck 1 t; LMarkW 2 [t] []; LMarkR 2; LPush 1; LMarkW 2 [t] []] in
+  let mid := lrun 50000 linit sched in
+  let fin := lrun 50000 mid [LOp OPack; LMarkR 2] in
+  received (lpool mid) = [t] /\ In (thash t) (exec_keys (lpool mid)) /\ ~ mark_idle mid /\
+  received (lpool fin) = [] /\ In (thash t) (exec_keys (lpool fin)) /\ mark_idle fin /\
+  (let a := mkTx 11 1 0 0 in let b := mkTx 12 1 1 0 in
+   let s4 := trun 10 (mkT empty []) [TOp (OAdd a); TTick; TOp (OAdd b); TTick; TTick; TTick] in
+   received (tp s4) = [a; b] /\ received (tp (tstep 10 s4 TTick)) = [b]).
+Proof. vm_compute. repeat split; auto. Qed.
